@@ -120,7 +120,7 @@ func (b *bytecode) compile(c *Compiler, expr ast.Expr, env *val.Env) {
 	case *ast.MemberExpr:
 		b.compile(c, e.Obj, env)
 		b.emitOP(OP_OBJ_LOAD)
-		b.emitMediumInt(e.Index)
+		b.emitConst(e.Field.Name)
 
 	default:
 		util.Unreachable()
